@@ -162,6 +162,7 @@ func rootsFor(prop, tier string) []Root {
 		}
 		rs = append(rs, Root{Prop: prop, Harness: "VH_C03_Labels", Params: []int{1}, MaxDecs: 2000})
 		rs = append(rs, Root{Prop: prop, Harness: "VH_C03_Labels", Params: []int{2}, MaxDecs: 2000})
+		rs = append(rs, Root{Prop: prop, Harness: "VH_C03_OpenRotate", MaxDecs: 2000})
 		if thorough {
 			rs = append(rs, Root{Prop: prop, Harness: "VH_C03_Labels", Params: []int{3}, MaxDecs: 2000})
 		}
@@ -175,6 +176,9 @@ func rootsFor(prop, tier string) []Root {
 		if thorough {
 			npk = []int{0, 1, 2, 3}
 		}
+		// the handler rejects the (empty) delivery of a rolled-back transaction
+		rs = append(rs, Root{Prop: prop, Harness: "VH_C05_Stream", Params: []int{4, 1, 0, 4}, MaxDecs: 4000, MaxSteps: 30000000})
+		rs = append(rs, Root{Prop: prop, Harness: "VH_C05_Stream", Params: []int{11, 1, 0, 4}, MaxDecs: 4000, MaxSteps: 30000000})
 		if prop == "C06" {
 			// the reason EACH attempt ended is reported for that attempt (cancel, then a master error ...)
 			rs = append(rs, Root{Prop: prop, Harness: "VH_C07_Attempts", Params: []int{1, 0}, MaxDecs: 6000, MaxSteps: 30000000})
@@ -203,6 +207,8 @@ func rootsFor(prop, tier string) []Root {
 		for _, nl := range []int{0, 1, 10} {
 			rs = append(rs, Root{Prop: prop, Harness: "VH_C07_Handshake", Params: []int{nl}, MaxDecs: 4000})
 		}
+		// the master refuses the checksum announcement (ERR packet, any code): no dump request follows
+		rs = append(rs, Root{Prop: prop, Harness: "VH_C05_Stream", Params: []int{6, 1, 0, 0}, MaxDecs: 4000, MaxSteps: 30000000})
 		rs = append(rs, Root{Prop: prop, Harness: "VH_C07_Attempts", Params: []int{1, 0}, MaxDecs: 6000, MaxSteps: 30000000})
 		// pacing "master far ahead" (the whole log sits in the connection's buffer): library-priority schedules
 		rs = append(rs, Root{Prop: prop, Harness: "VH_C07_Attempts", Params: []int{1, 1}, MaxDecs: 6000, MaxSteps: 30000000, LibPrio: true})
@@ -221,7 +227,7 @@ func rootsFor(prop, tier string) []Root {
 			add("VH_C08_Transport", 4100, 60)
 			add("VH_C08_Transport", 60, 4100)
 		}
-		for sh := 0; sh < 25; sh++ {
+		for sh := 0; sh < 27; sh++ {
 			add("VH_C08_Scribble", sh, 0)
 			add("VH_C08_Scribble", sh, 1)
 		}
@@ -314,6 +320,7 @@ func rootsFor(prop, tier string) []Root {
 		rs = append(rs, Root{Prop: prop, Harness: "VH_C14_LongString", Params: []int{70000, 1, 1}, MaxDecs: 40000, MaxSteps: 2000000000})
 		rs = append(rs, Root{Prop: prop, Harness: "VH_C14_LongString", Params: []int{70000, 2, 1}, MaxDecs: 40000, MaxSteps: 2000000000})
 		rs = append(rs, Root{Prop: prop, Harness: "VH_C14_LongString", Params: []int{70000, 3, 1}, MaxDecs: 40000, MaxSteps: 2000000000})
+		rs = append(rs, Root{Prop: prop, Harness: "VH_C14_LongString", Params: []int{70000, 4, 1}, MaxDecs: 40000, MaxSteps: 2000000000})
 		rs = append(rs, Root{Prop: prop, Harness: "VH_C14_LongString", Params: []int{300, 3, 0}, MaxDecs: 40000, MaxSteps: 200000000})
 		if thorough {
 			for _, n := range []int{255, 384, 16383, 16384} {
@@ -331,6 +338,15 @@ func rootsFor(prop, tier string) []Root {
 				rs = append(rs, Root{Prop: prop, Harness: "VH_C14_Struct", Params: []int{5, lg}, MaxDecs: 12000})
 			}
 		}
+		// every nested container in a storage format of its own (2: large top level, 3: small top level)
+		// (fan-out <= 1 below the top level; 4, 5: the same with fan-out <= 2)
+		for _, lg := range []int{2, 3} {
+			rs = append(rs, Root{Prop: prop, Harness: "VH_C14_Struct", Params: []int{2, lg}, MaxDecs: 6000})
+			if thorough {
+				rs = append(rs, Root{Prop: prop, Harness: "VH_C14_Struct", Params: []int{2, lg + 2}, MaxDecs: 6000})
+				rs = append(rs, Root{Prop: prop, Harness: "VH_C14_Struct", Params: []int{3, lg}, MaxDecs: 12000})
+			}
+		}
 	case "C15":
 		// attribution by ordinal in partial images (names, types, NULL / absent marks): the C13 row harness
 		rs = append(rs, Root{Prop: prop, Harness: "VH_C13_Marks", Params: []int{3}})
@@ -339,6 +355,11 @@ func rootsFor(prop, tier string) []Root {
 		}
 		if thorough {
 			rs = append(rs, Root{Prop: prop, Harness: "VH_C15_Cache", Params: []int{2}, MaxDecs: 2000})
+		}
+		rs = append(rs, Root{Prop: prop, Harness: "VH_C15_Recount", Params: []int{1}, MaxDecs: 2000})
+		rs = append(rs, Root{Prop: prop, Harness: "VH_C15_Recount", Params: []int{2}, MaxDecs: 2000})
+		if thorough {
+			rs = append(rs, Root{Prop: prop, Harness: "VH_C15_Recount", Params: []int{3}, MaxDecs: 2000})
 		}
 		for _, w := range []int{4, 6} {
 			add("VH_C15_TableMap", w, 1, 1, 1, 0)
@@ -466,6 +487,9 @@ func rootsFor(prop, tier string) []Root {
 			}
 			add("VH_C19_MariaAdd", n)
 			add("VH_C19_MariaContains", n)
+			if n <= 2 {
+				add("VH_C19_MariaFork", n)
+			}
 		}
 	case "C20":
 		for sh := 0; sh < 7; sh++ {
@@ -479,6 +503,10 @@ func rootsFor(prop, tier string) []Root {
 			for where := 0; where < 3; where++ {
 				add("VH_C17_Real", n, where)
 			}
+		}
+		// the same through the real connection path (reader goroutine, readBinlogEvent, hand-off)
+		for _, n := range []int{0, 1, 3, 4, 18, 20} {
+			rs = append(rs, Root{Prop: prop, Harness: "VH_C17_Conn", Params: []int{n, n % 2}, MaxDecs: 4000})
 		}
 		hi := 64
 		if thorough {
